@@ -106,6 +106,8 @@ class Run:
             self.cov["samples"].append(s)
 
     def oblige(self, name, ok, detail=""):
+        if os.environ.get("VERIF_DEBUG"):
+            print("[%.1fs] %s %s" % (time.time() - self.t0, "ok " if ok else "BAD", name), flush=True)
         self.obligations.append((name, bool(ok), detail))
         if not ok:
             self.broken.append(name)
